@@ -73,5 +73,6 @@ RULE = ('random histories (<= 40 operations counting handler statements) over 1-
         'keys, clears, regenerates, deletes or expires the session (some responses streamed, so that save runs at on_end_request); clock advances aimed at expiry-1/expiry/expiry+1; '
         'synchronous sweeps; file damage (truncation offset, zero length, garbage); scripted id-source collisions '
         'with live ids; plus every truncation offset of real saved files with the torn file between two expired '
-        'sessions.  Non-trivial = at least two requests and at least one adopted id; distinct = distinct '
+        'sessions, plus a systematic small scope: every sequence of 3 (quick) / 4 (thorough) operations over a 10/11-symbol '
+        'alphabet on both backends.  Non-trivial = at least two requests and at least one adopted id; distinct = distinct '
         '(backend, timeout, operation list, collision plan)')
